@@ -1238,13 +1238,56 @@ func c01R16(c *Ctx) {
 				}
 				// an announcement in g that can reach the instruction `at` of g: a store of (possibly) waiting_for_input into
 				// the state field, or a call of a function that stores such an argument there
+				// isAnnouncement: the instruction stores (possibly) waiting_for_input into the state field, calls a function that
+				// stores such an argument there, or (depth-limited) calls a function that contains an announcement
+				var isAnnouncement func(in ssa.Instruction, d int) bool
+				isAnnouncement = func(in ssa.Instruction, d int) bool {
+					switch y := in.(type) {
+					case *ssa.Store:
+						if fa, ok := y.Addr.(*ssa.FieldAddr); ok && fieldAddrVar(fa) == sf && mayWait(y.Val, 0) {
+							return true
+						}
+					case *ssa.Call:
+						h := y.Common().StaticCallee()
+						if h == nil || !isRepoFn(h) || len(h.Blocks) == 0 {
+							return false
+						}
+						for ai, a := range y.Common().Args {
+							if !mayWait(a, 0) || ai >= len(h.Params) {
+								continue
+							}
+							for _, vs := range c.fieldStoresIn(h, sf) {
+								if vs.val == ssa.Value(h.Params[ai]) {
+									return true
+								}
+								if ph, ok := vs.val.(*ssa.Phi); ok {
+									for _, e := range ph.Edges {
+										if e == ssa.Value(h.Params[ai]) {
+											return true
+										}
+									}
+								}
+							}
+						}
+						if d < 2 && h.Pkg == in.Parent().Pkg {
+							inside := false
+							eachInstr(h, func(r3 instrRef) {
+								if !inside && isAnnouncement(r3.I, d+1) {
+									inside = true
+								}
+							})
+							return inside
+						}
+					}
+					return false
+				}
 				announcedBefore := func(g *ssa.Function, at ssa.Instruction) bool {
 					found := false
 					eachInstr(g, func(r2 instrRef) {
 						if found {
 							return
 						}
-						isAnn := false
+						isAnn := isAnnouncement(r2.I, 0)
 						switch y := r2.I.(type) {
 						case *ssa.Store:
 							if fa, ok := y.Addr.(*ssa.FieldAddr); ok && fieldAddrVar(fa) == sf && mayWait(y.Val, 0) {
@@ -1280,12 +1323,25 @@ func c01R16(c *Ctx) {
 				}
 				announced := announcedBefore(fn, r.I)
 				if !announced {
-					// the announcement is made by the caller before it calls this function (run() announces, runOnInput waits)
-					for _, st := range c.CG().callers[fn] {
-						if g := st.Instr.Parent(); g != nil && announcedBefore(g, st.Instr) {
-							announced = true
+					// the announcement is made by a caller before it calls this function (run() announces, runOnInput — or a
+					// helper it calls — waits)
+					var up func(f *ssa.Function, d int) bool
+					up = func(f *ssa.Function, d int) bool {
+						if d > 3 {
+							return false
 						}
+						for _, st := range c.CG().callers[f] {
+							g := st.Instr.Parent()
+							if g == nil {
+								continue
+							}
+							if announcedBefore(g, st.Instr) || up(g, d+1) {
+								return true
+							}
+						}
+						return false
 					}
+					announced = up(fn, 0)
 				}
 				key := fmt.Sprintf("wait:%s:%s", c.fnName(fn), ch)
 				c.verdict(announced, rule, key, c.instrPos(r.I), "the wait on "+ch+" can be reached in state waiting_for_input",
